@@ -35,7 +35,7 @@ func history(c *drv.Ctx, bin string, seed int64, idx int) error {
 		return err
 	}
 	defer func() { w.Kill() }()
-	wd, err := mixed.New(w, r, mixed.Opts{Tag: fmt.Sprint(idx)})
+	wd, err := mixed.New(w, r, mixed.Opts{Tag: fmt.Sprint(idx), Admin: true})
 	if err != nil {
 		return fmt.Errorf("setup: %v; stderr: %s", err, drv.FatalInStderr(w.Stderr()))
 	}
@@ -103,9 +103,22 @@ func history(c *drv.Ctx, bin string, seed int64, idx int) error {
 				// neuronjson keeps ONE in-memory db per branch head; when the master head moves onto another lineage
 				// (newversion on a merge child) that db keeps serving the old lineage's annotations until a restart
 				if strings.HasPrefix(f, "nj/") {
+					// "switched": a master-branch version created by newversion on a node that was not the master head
+					// at that time (possible once merge children exist), and the master versions created on top of it
+					switched := map[string]bool{}
+					head := wd.H.D.Root
 					for _, u := range wd.H.D.Order {
 						n := wd.H.D.Nodes[u]
-						if strings.Contains(d, "/api/node/"+u+"/") && n.Branch == "" && len(n.Parents) == 1 && len(wd.H.D.Nodes[n.Parents[0]].Parents) >= 2 {
+						if u == wd.H.D.Root || n.Branch != "" || len(n.Parents) != 1 {
+							continue
+						}
+						if n.Parents[0] != head || switched[n.Parents[0]] {
+							switched[u] = true
+						}
+						head = u
+					}
+					for u := range switched {
+						if strings.Contains(d, "/api/node/"+u+"/") {
 							f = "nj:memdb-head-moved-onto-merge-lineage"
 						}
 					}
@@ -195,7 +208,7 @@ func run(c *drv.Ctx) error {
 	if err != nil {
 		return err
 	}
-	nh := c.N(10, 300)
+	nh := c.N(16, 300)
 	seeds := make([]int64, nh)
 	for i := range seeds {
 		seeds[i] = c.Rand.Int63()
